@@ -141,7 +141,7 @@ def check_phase(res, spec, obs, ph, ta=25.0, want=("C01", "C02", "C04"), d=None,
                 # solver tolerance: currents are converged to 1e-8 A absolute -> powers to ~1e-8 A x |V|
                 if not close(P - L, abs(vout) * iout, 1e-4, 5e-8 * max(1.0, abs(vin), abs(vout))):
                     res.v(("C02.balance", k, *tags), "%s P-L %r but |Vout|*Iout %r" % (name, P - L, abs(vout) * iout))
-                ptol = 5e-8 * max(1.0, abs(vin), abs(vout))  # same solver-tolerance allowance as the balance (a loss-free switch shows Vin/Vout of successive sweeps)
+                ptol = 5e-8 * max(1.0, abs(vin), abs(vout)) + 2e-5 * P  # same solver-tolerance allowance as the balance (a loss-free switch shows Vin/Vout of successive sweeps)
                 if L < -ptol or L > P * (1 + 1e-9) + ptol:
                     res.v(("C02.loss-range", k, *tags), "%s Loss %r Power %r" % (name, L, P))
                 if P > 0:
